@@ -29,26 +29,6 @@ def register(db):
         props=RENDER_PROPS,
     ))
     db.add(Contract(
-        name=CORE + "HTML.as_string",
-        params=[("self", "Node")], returns="Str", self_class="HTML",
-        requires=["isRaw(self)"],
-        ensures=["result == rawOf(self)"],
-        props=RENDER_PROPS, verify=False,
-        note="verified separately on the HTML(UserString) view in contracts/html.py (same function, UserString.data model)",
-    ))
-    db.add(Contract(
-        name=CORE + "HTML._repr_html_",
-        params=[("self", "Node")], returns="Str", self_class="HTML",
-        requires=["isRaw(self)"],
-        ensures=["result == rawOf(self)"],
-        props=RENDER_PROPS, verify=False,
-        note="verified separately on the HTML(UserString) view in contracts/html.py",
-    ))
-    db.method_table[("HTML", "as_string")] = CORE + "HTML.as_string"
-    db.method_table[("HTML", "_repr_html_")] = CORE + "HTML._repr_html_"
-    db.method_table[("HTML", "__str__")] = CORE + "HTML.as_string"
-
-    db.add(Contract(
         name=CORE + "Tag.get_html_string",
         params=[("self", "Node"), ("indent", "Nat"), ("eol", "Str")],
         returns="Str", self_class="Tag",
